@@ -128,6 +128,15 @@ func run(dir string, env []string, name string, args ...string) (string, error) 
 	return string(b), err
 }
 
+// outDir is where evidence and fresh replays go: the verif directory, unless VERIF_OUTDIR redirects
+// them (used when a seeded change is applied to /repo, so that registered evidence is untouched).
+func outDir() string {
+	if d := os.Getenv("VERIF_OUTDIR"); d != "" {
+		return d
+	}
+	return *verifDir
+}
+
 func main() {
 	flag.Parse()
 	if *prop == "" {
@@ -269,6 +278,8 @@ func main() {
 	suppressed := map[string]string{} // signature -> finding id
 	var openIDs []string
 	var knownLines []string
+	lineOf := map[string]string{}
+	printed := map[string]bool{}
 	for i, f := range findings {
 		if f.Status != "open" {
 			continue
@@ -283,10 +294,19 @@ func main() {
 		if rerr != nil || json.Unmarshal(b, &rr) != nil {
 			die("replay of known finding %s failed: %v\n%s", f.ID, err, tail(out, 40))
 		}
+		// An open finding always suppresses its own signature (and nothing else). Its committed
+		// replay is a convenience: when it still reproduces, the line is printed at once and the
+		// workers may steer away from the trigger (Prop.Exclude) to keep exploring behind it. When
+		// it does not (any change to /repo shifts schedules), the trigger region stays in the
+		// search, and the line is printed if the search meets the signature.
+		suppressed[f.Signature] = f.ID
+		lineOf[f.ID] = fmt.Sprintf("KNOWN-FINDING: property=%s %s [%s] %s", *prop, f.ID, f.Signature, f.What)
 		if rr.Violation != nil && rr.Violation.Signature == f.Signature {
-			knownLines = append(knownLines, fmt.Sprintf("KNOWN-FINDING: property=%s %s [%s] %s", *prop, f.ID, f.Signature, f.What))
-			suppressed[f.Signature] = f.ID
+			knownLines = append(knownLines, lineOf[f.ID])
+			printed[f.ID] = true
 			openIDs = append(openIDs, f.ID)
+		} else {
+			fmt.Printf("note: committed replay of known finding %s did not reproduce its signature; searching without steering around it\n", f.ID)
 		}
 	}
 	for _, l := range knownLines {
@@ -405,6 +425,10 @@ func main() {
 	for _, v := range viols {
 		if id, ok := suppressed[v.Violation.Signature]; ok {
 			knownHits[id]++
+			if !printed[id] {
+				printed[id] = true
+				fmt.Println(lineOf[id])
+			}
 			continue
 		}
 		if seenSig[v.Violation.Signature] {
@@ -417,7 +441,7 @@ func main() {
 	// minimise and write replay files for fresh violations
 	var reports []string
 	if len(fresh) > 0 {
-		foundDir := filepath.Join(*verifDir, "replays", "found")
+		foundDir := filepath.Join(outDir(), "replays", "found")
 		os.MkdirAll(foundDir, 0o755)
 		for i, v := range fresh {
 			if i >= 3 {
@@ -503,9 +527,9 @@ func main() {
 		"wall_s":      wall,
 		"violations":  len(fresh),
 	}
-	os.MkdirAll(filepath.Join(*verifDir, "evidence"), 0o755)
+	os.MkdirAll(filepath.Join(outDir(), "evidence"), 0o755)
 	eb, _ := json.MarshalIndent(ev, "", " ")
-	if err := os.WriteFile(filepath.Join(*verifDir, "evidence", *prop+".json"), eb, 0o644); err != nil {
+	if err := os.WriteFile(filepath.Join(outDir(), "evidence", *prop+".json"), eb, 0o644); err != nil {
 		die("writing evidence: %v", err)
 	}
 	fmt.Printf("%s %s: %d runs (%d non-trivial, %d distinct non-trivial fingerprints), %d steps, %.1fs simulated, faults %v, wall %.1fs (build %.1fs), seed %d\n",
